@@ -163,3 +163,54 @@ def _(c):
         lim = 0.01 if abs(days) <= 7.3 else 0.10
         ok = ok and bool(np.linalg.norm(got[:3] - ref[:3]) <= lim)
     c.ensure("native_equals_reference_1cm", ok)
+
+
+def _grid_leap(tier, rng):
+    """TLE epochs a few days before / after an inserted leap second (2008-12-27, 2009-01-03, 2012-06-18, 2015-07-03, 2016-12-31) x dates on either side of it
+    (-10 d .. +12 d) x the label of the requested date {UTC, TAI, TT} x two orbits; real tai-utc.dat"""
+    for ep in (8, 9, 10, 11, 4):
+        for k, days in enumerate((-10.0, -3.2, 0.5, 4.7, 12.0)):
+            for lab in range(3):
+                i, n, e = ((51.6, 15.5, 1e-3), (98.0, 14.2, 0.01))[(k + lab) % 2]
+                yield {"i": i, "e": e, "n": n, "bstar": 1e-4, "raan": 24.5, "argp": 309.8, "M": 101.7, "epoch": ep, "days": days, "label": lab}
+
+
+@contract("C07", "across_a_leap_second", funcs=["beyond.propagators.sgp4beta:Sgp4Beta.propagate", f"{S4}:Sgp4.propagate"], grid=_grid_leap, level="bounded")
+def _(c):
+    """bounded: with the real table of leap seconds, a date on the other side of an inserted second from the epoch of the TLE -- given under any label -- gets the
+    state the reference gives for the minutes elapsed between the two UTC calendar readings (the reference's own, leap-second-free, time argument): native model
+    within 1 cm, default propagator within |v| x 50 us; the native model asked with the elapsed time instead of the date gives the same"""
+    from beyond.io.tle import Tle
+    from beyond.dates import timedelta
+    from beyond.propagators.sgp4beta import Sgp4Beta
+    from sgp4.earth_gravity import wgs72
+    from sgp4.io import twoline2rv
+    from sgp4.propagation import sgp4 as ref_sgp4
+    from contracts.eopcfg import use_eop
+    use_eop(real=True)
+    a = {k: (c.real(k) if k not in ("epoch",) else c.integer(k)) for k in ("i", "e", "n", "bstar", "raan", "argp", "M", "epoch")}
+    l1, l2 = _mk_tle(a)
+    c.require(len(l1) == 69 and len(l2) == 69)
+    orb = Tle(l1 + "\n" + l2).orbit()
+    sat = twoline2rv(l1, l2, wgs72)
+    days = c.real("days")
+    lab = ["UTC", "TAI", "TT"][c.integer("label")]
+    # the requested date: a UTC calendar reading `days` x 86400 s of calendar after the epoch's, relabelled (same instant)
+    u0 = orb.date.change_scale("UTC").datetime
+    from beyond.dates import Date
+    date = Date(u0 + timedelta(days=days), scale="UTC").change_scale(lab)
+    straddles = (date - orb.date).total_seconds() != days * 86400.0
+    c.ensure("case_straddles_a_leap_second_or_is_a_control", straddles == (abs((date - orb.date).total_seconds() - days * 86400.0) > 0.5))
+    p, v = ref_sgp4(sat, days * 1440.0)
+    c.require(not sat.error)
+    ref = np.array(list(p) + list(v)) * 1000
+    nat = Sgp4Beta()
+    nat.orbit = orb
+    got = np.asarray(nat.propagate(date), dtype=float)
+    c.ensure("native_by_date", bool(np.linalg.norm(got[:3] - ref[:3]) <= 0.01))
+    nat2 = Sgp4Beta()
+    nat2.orbit = orb
+    got2 = np.asarray(nat2.propagate(timedelta(days=days)), dtype=float)
+    c.ensure("native_by_elapsed_time", bool(np.linalg.norm(got2[:3] - ref[:3]) <= 0.01))
+    got3 = np.asarray(orb.propagate(date), dtype=float)
+    c.ensure("default_by_date", bool(np.linalg.norm(got3[:3] - ref[:3]) <= np.linalg.norm(ref[3:]) * 50e-6 + 1e-3))
